@@ -21,6 +21,8 @@ mod c17;
 mod c01;
 mod c02;
 mod common;
+#[allow(dead_code)]
+mod iterlaws;
 mod rng;
 mod c07;
 mod c08;
